@@ -107,7 +107,9 @@ pub fn absorb(
             let cfg = mode.cfg();
             let sig = v.sig.clone();
             let scratch = crate::util::Scratch::new("shrink");
-            let small = crate::shrink::shrink(h, 400, |c| {
+            // (only the first few witnesses of a shard are shrunk: a badly broken tree yields dozens of signatures)
+            let budget = if shard.violations.len() < 5 { 400 } else { 0 };
+            let small = crate::shrink::shrink(h, budget, |c| {
                 let p = scratch.fresh("k");
                 let o = exec::run_history(c, &cfg, &p);
                 let _ = std::fs::remove_file(&p);
@@ -188,6 +190,11 @@ pub fn run(ctx: &Ctx, mode: Mode) -> Shard {
     let ps: u64 = ctx.get("pagesize").and_then(|s| s.parse().ok()).unwrap_or(1024);
 
     if let Some(rp) = &ctx.replay {
+        let is_live = std::fs::read(rp).ok().and_then(|b| serde_json::from_slice::<serde_json::Value>(&b).ok()).map(|d| d["case"]["kind"] == "live").unwrap_or(false);
+        if is_live {
+            crate::live::run(ctx, &mut shard);
+            return shard;
+        }
         replay(ctx, mode, rp, &mut shard, &scratch, &mut total);
         finish(&mut shard, &total);
         return shard;
@@ -308,6 +315,10 @@ pub fn run(ctx: &Ctx, mode: Mode) -> Shard {
             absorb(&mut shard, ctx, mode, &h, &out, &mut total, "big-commit");
         }
         i += 1;
+    }
+    // ---- 6. C07 only: iterations that are under way while the transaction mutates entries ahead of them
+    if mode == Mode::C07 {
+        crate::live::run(ctx, &mut shard);
     }
     finish(&mut shard, &total);
     shard
